@@ -7,7 +7,10 @@ import progs
 from progs import Item, Field, Variant, Program, t_prim
 
 NAMES = ['Foo', 'Bar', 'Baz', 'Item', 'UserId', 'Config', 'Point', 'Node', 'Color', 'Shape', 'Event', 'Payload', 'Account', 'Vault',
-         'IdCard', 'ApiKey', 'Session', 'Token', 'HttpUrl', 'Wrapper']
+         'IdCard', 'ApiKey', 'Session', 'Token', 'HttpUrl', 'Wrapper',
+         # type names that are keywords of a target language (Swift: Type, Protocol, Any; seeded C09_c: a keyword escape at the
+         # reference that forgets the prefix the definition carries)
+         'Type', 'Protocol', 'Any']
 FIELDS = ['a', 'b', 'c', 'd', 'e', 'first', 'second', 'items', 'value', 'next', 'left', 'right', 'owner', 'kind2', 'data']
 VARIANTS = ['A', 'B', 'C', 'Ready', 'Failed', 'Leaf', 'Branch', 'Http2', 'IdOnly', 'XyZwQr']
 RENAME_STYLES = [lambda n: n + 'Renamed', lambda n: 'New' + n, lambda n: n + '2', lambda n: 'R' + n.lower(), lambda n: n[:1] + 'x' + n[1:]]
